@@ -55,14 +55,22 @@ impl<I: SelectSyscall> SelectSyscall for NioSelectSyscall<I> {
         errorfds: *mut fd_set,
         timeout: *mut timeval,
     ) -> c_int {
+        // timeout in ms, like the steps of the loop below
         let mut t = if timeout.is_null() {
             c_uint::MAX
         } else {
-            unsafe {
-                c_uint::try_from((*timeout).tv_sec).expect("overflow")
-                    .saturating_mul(1_000_000)
-                    .saturating_add(c_uint::try_from((*timeout).tv_usec).expect("overflow"))
+            let (sec, usec) = unsafe { ((*timeout).tv_sec, (*timeout).tv_usec) };
+            if sec < 0 || usec < 0 {
+                crate::syscall::set_errno(libc::EINVAL);
+                return -1;
             }
+            c_uint::try_from(sec)
+                .unwrap_or(c_uint::MAX)
+                .saturating_mul(1_000)
+                // round up, never wait less than requested
+                .saturating_add(
+                    c_uint::try_from(usec.saturating_add(999) / 1_000).unwrap_or(c_uint::MAX),
+                )
         };
         let mut o = timeval {
             tv_sec: 0,
